@@ -530,6 +530,78 @@ def run_c12_probes(tier, seed, verdict, cov, cases, d):
             raise ToolError('self-test: no probed event')
 
 
+def run_c12_stores(tier, seed, verdict, cov, fens, d):
+    """Every cache write of the real search is true of the node it is stored for (EntriesTrue of Search.tla on
+    the real entries): searches of the C12 positions with the probes neutralised, the un-pruned tree dumped with
+    the Board API, TLC compares each written (score, depth, bound) with the look-ahead value of that node."""
+    parts = max(1, min(NCPU - 2, 12))
+    rnd = random.Random(seed * 11 + 3)
+    fl = list(fens)
+    rnd.shuffle(fl)
+    fl = fl[:150 if tier == 'quick' else 3000]
+    cases = [{'id': i, 'fen': f, 'hist': [], 'depth': 2 + (i % 2)} for i, f in enumerate(fl)]
+    chunks = [cases[i::parts] for i in range(parts)]
+    chunks = [c for c in chunks if c]
+
+    def steps(i):
+        cp = os.path.join(d, 'store-cases-%d.ndjson' % i)
+        write_cases(cp, chunks[i])
+        out = os.path.join(d, 'store-%02d.ndjson' % i)
+        run_harness(['search-steps', '--cases', cp, '--out', out, '--cap', 8000 if tier == 'quick' else 40000], timeout=6000)
+        return out
+    with cf.ThreadPoolExecutor(max_workers=len(chunks)) as ex:
+        sfiles = [f for f in ex.map(steps, range(len(chunks))) if os.path.getsize(f) > 0]
+    with cf.ThreadPoolExecutor(max_workers=len(chunks)) as ex:
+        sres = list(ex.map(lambda f: validate_search(f, 'STORE', big=True), sfiles))
+    writes = 0
+    for f, r in zip(sfiles, sres):
+        if r['status'] == 'error':
+            log(r.get('detail', '')[-3000:])
+            raise ToolError('SearchTrace (STORE) failed to run on %s' % f)
+        cov['states'] = cov.get('states', 0) + r.get('states', 0)
+        if r['status'] == 'accept':
+            cov['traces_validated_against_impl'] = cov.get('traces_validated_against_impl', 0) + 1
+            writes += r['nums'][1]
+        else:
+            hdr = None
+            ev = None
+            path = {}
+            with open(f) as fh:
+                for ln, line in enumerate(fh, 1):
+                    if '"ev":"tree"' in line[:20]:
+                        hdr = json.loads(line)
+                        path = {}
+                    elif '"ev":"down"' in line[:20]:
+                        e = json.loads(line)
+                        path = {k: v for k, v in path.items() if k < e['ply']}
+                        path[e['ply']] = e['mv']
+                    if ln == r['line']:
+                        ev = json.loads(line)
+                        break
+            line_moves = [path[k] for k in sorted(path) if k <= ev.get('ply', 0)]
+            sig = {'kind': 'store-rule', 'fen': hdr['fen'], 'depth': hdr['depth'], 'line': line_moves, 'fails': r['fails']}
+            verdict.report(sig, {'how': 'a cache entry written by the real search is not true of its node (SearchTrace.tla STORE / EntriesTrue of Search.tla)',
+                                 'event': ev})
+    cov['cache_writes_judged'] = writes
+    if writes < 100 and not verdict.violations:
+        raise ToolError('vacuity: only %d cache writes judged' % writes)
+    if not verdict.violations and sfiles:
+        # self-test: a root entry (Exact) whose score is changed by one must be rejected
+        lines = open(sfiles[0]).read().strip().split('\n')
+        for i, x in enumerate(lines):
+            if x.startswith('{"ev":"ttwrite"') and '"site":"root"' in x:
+                e = json.loads(x)
+                e['score'] -= 1
+                lines[i] = json.dumps(e)
+                cp = os.path.join(d, 'selftest-store.ndjson')
+                open(cp, 'w').write('\n'.join(lines) + '\n')
+                r = validate_search(cp, 'STORE', big=True)
+                if r['status'] != 'reject' or r['line'] != i + 1:
+                    raise ToolError('self-test failed: altered exact entry accepted (%s)' % r)
+                cov['selftest_store'] = 'the score of an exact entry changed by one in the recorded trace: rejected with %s' % r['fails']
+                break
+
+
 def run_c12(tier, seed, verdict, cov):
     d = fresh_dir('c12-%d' % os.getpid())
     npos = 200 if tier == 'quick' else 1500
@@ -605,6 +677,7 @@ def run_c12(tier, seed, verdict, cov):
     if applicable < 2:
         raise ToolError('vacuity: fewer than 2 applicable (position, cache history, depth) cases')
     run_c12_probes(tier, seed, verdict, cov, cases, d)
+    run_c12_stores(tier, seed, verdict, cov, fens, d)
     # self-test: replace the chosen move of an applicable mate-in-1 case by a non-mating one
     if not verdict.violations:
         done = False
@@ -767,7 +840,7 @@ def mc_search(prop, tier, cov):
 
 RULES = {
     'C11': 'cases (position, game history, depth): sparse endgames to depth 4, rule-corner and middlegame positions to depth 1-3, histories that make children repetitions, half-move clocks 95..99; each judged by TLC evaluating RootVal on the dumped un-pruned tree; distinct = distinct cases',
-    'C12': 'candidate positions from random playouts and a mate suite, loaded from FEN (no history, half-move clock <= 10), filtered by the 3-ply analysis; each searched to depth 3 and 4 under cache histories {empty, d1, d2, d4, d2+d4, d3 twice}; non-trivial = (position, history, depth) cases where a clause of the property applies (counted by TLC)',
+    'C12': 'candidate positions from random playouts and a mate suite, loaded from FEN (no history, half-move clock <= 10), filtered by the 3-ply analysis; each searched to depth 3 and 4 under cache histories {empty, d1, d2, d4, d2+d4, d3 twice}; non-trivial = (position, history, depth) cases where a clause of the property applies (counted by TLC); plus the two mechanisms the property rests on, bound to the model: every cache probe of these searches judged by ProbeOutcome of TTProbe.tla (mode PROBE), and every cache write of probe-free searches of the positions compared with the look-ahead value of its node (mode STORE, EntriesTrue of Search.tla)',
     'C13': 'for each position the uninterrupted search and EVERY node budget 1..S (or all <= 100/500 plus a sample for large S), plus asynchronous stop-flag and 1-5 ms movetime interruptions; every cache write and abort-return is an event; distinct = distinct (position, depth, interruption)',
     'C16': 'each (position, depth) searched 3x in one process, in 3 separate processes and once under full CPU load; bench of the release build run several times concurrently; distinct = distinct (position, depth)',
 }
